@@ -715,6 +715,12 @@ func replayCase(sub string, raw json.RawMessage) string {
 			return "bad replay: " + err.Error()
 		}
 		return checkRetSet(c)
+	case "bytes":
+		var c bytesCase
+		if err := json.Unmarshal(raw, &c); err != nil {
+			return "bad replay: " + err.Error()
+		}
+		return checkBytes(c)
 	case "ret-batch":
 		var c batchCase
 		if err := json.Unmarshal(raw, &c); err != nil {
@@ -1038,6 +1044,12 @@ var codecPieces = []string{"%", "+", " ", "%2B", "%20", "%25", "%zz", "%4", "=",
 func genStr(maxRunes int) *rapid.Generator[string] {
 	return rapid.Custom(func(t *rapid.T) string {
 		var sb strings.Builder
+		if maxRunes >= 12 && rapid.IntRange(0, 15).Draw(t, "sized") == 0 {
+			// a length around a buffer / chunk threshold, non-periodic content
+			kind := rapid.SampledFrom([]string{"ascii", "multibyte", "mixed"}).Draw(t, "kind")
+			n := rapid.SampledFrom(sweepSizes[:32]).Draw(t, "size") + rapid.IntRange(-2, 2).Draw(t, "off")
+			return sizedString(kind, max(n, 0), rapid.Uint64().Draw(t, "seed"))
+		}
 		switch rapid.IntRange(0, 6).Draw(t, "strkind") {
 		case 0:
 			return gen.Str(maxRunes).Draw(t, "pieces")
@@ -1153,6 +1165,9 @@ func genValue(o gen.Opt, depth, width int) *rapid.Generator[any] {
 func genChain(o gen.Opt) *rapid.Generator[any] {
 	return rapid.Custom(func(t *rapid.T) any {
 		d := rapid.IntRange(5, 40).Draw(t, "depth")
+		if rapid.IntRange(0, 7).Draw(t, "deep") == 0 {
+			d = rapid.IntRange(41, 200).Draw(t, "deeper")
+		}
 		var v any
 		switch rapid.IntRange(0, 3).Draw(t, "leaf") {
 		case 0:
@@ -1207,6 +1222,11 @@ func genRootContainer(o gen.Opt) *rapid.Generator[any] {
 func genAny(o gen.Opt) *rapid.Generator[any] {
 	return rapid.Custom(func(t *rapid.T) any {
 		var v any
+		if rapid.IntRange(0, 39).Draw(t, "large") == 0 { // around the fast-path thresholds for element counts
+			n := rapid.SampledFrom(sweepMembers[:9]).Draw(t, "members")
+			vs := sizedValues(n, rapid.Uint64Range(0, 1<<20).Draw(t, "seed"))
+			return vs[rapid.IntRange(0, len(vs)-1).Draw(t, "which")]
+		}
 		switch rapid.IntRange(0, 9).Draw(t, "shape") {
 		case 0:
 			return genChain(o).Draw(t, "chain")
@@ -1754,6 +1774,7 @@ func TestC13(t *testing.T) {
 
 	exhaustive(t)
 	exhaustiveRetained()
+	exhaustiveSweeps()
 
 	type rapidSub struct {
 		name string
@@ -1862,6 +1883,13 @@ func TestC13(t *testing.T) {
 		c := genRetSet().Draw(t, "case")
 		if msg := doRetSet(c); msg != "" {
 			t.Fatalf("%s", rec.Fail("ret-setpath", c, "%s", msg))
+		}
+	})
+	// arbitrary Go strings (mostly not valid UTF-8) and the size classes
+	add("bytes", rec.Scale(300000, 2400000), func(t *rapid.T) {
+		c := genBytesCase().Draw(t, "case")
+		if msg := doBytes(c, ""); msg != "" {
+			t.Fatalf("%s", rec.Fail("bytes", c, "%s", msg))
 		}
 	})
 	add("ret-batch", rec.Scale(180000, 1440000), func(t *rapid.T) {
